@@ -246,6 +246,8 @@ class Interpreter(Interp):
     def ex_For(self, node, env):
         it = self.ev(node.iter, env)
         spec = self.loop_spec_for(node)
+        if isinstance(it, DictItems) and list(it.d.keys()) == [SYMVIEW_KEY]:
+            it = SymItems(it.d[SYMVIEW_KEY], "items")
         if isinstance(it, (SetView, MapView, SymItems)):
             if spec is None:
                 raise OutOfReach(f"for over a symbolic collection at line {node.lineno} needs a loop contract")
@@ -1167,6 +1169,14 @@ def _dname_count(interp, dn, sub):
 
 
 def _dname_startswith(interp, dn, prefix):
+    from .interp import NamePrefix
+    if isinstance(prefix, NamePrefix):
+        b = prefix.t
+        alts = []
+        for k in (1, 2, 3):
+            alts.append(z3.And(nparts(b) == k, nparts(dn.t) > k, *[part(dn.t, i) == part(b, i) for i in range(k)]))
+        interp.eng.assume(nparts(b) <= 3)  # bases used as prefixes are entity / attribute names (<= 3 parts)
+        return SV(z3.Or(*alts))
     if isinstance(prefix, str) and prefix.endswith(".") and prefix.count(".") >= 1 and ".." not in prefix:
         ps = prefix[:-1].split(".")
         conj = [nparts(dn.t) > len(ps)]
@@ -1214,7 +1224,16 @@ def _dict_pop(interp, d, k, *default):
     raise exc("KeyError", k)
 
 
+SYMVIEW_KEY = "__pyvc_symbolic_part__"
+
+
 def _dict_update(interp, d, other=None, **kw):
+    if isinstance(other, MapView):
+        # a local dict receiving the content of a symbolic map: keep a private copy as its 'symbolic part'
+        if d:
+            raise OutOfReach("dict.update(symbolic map) on a non-empty local dict")
+        d[SYMVIEW_KEY] = _map_copy(interp, other)
+        return
     if other is not None:
         if isinstance(other, dict):
             for k, v in other.items():
@@ -1346,6 +1365,29 @@ def _b_getattr(interp, obj, name, *default):
         if default:
             return default[0]
         raise exc("AttributeError", name)
+    if isinstance(name, PartV) and isinstance(obj, Rec):
+        # symbolic attribute name against the concrete fields of a record
+        for f, v in obj._fields.items():
+            if f.startswith("_"):
+                continue
+            if interp.eng.branch(name.t == part_const(f), f"attr=={f}"):
+                return v
+        if default:
+            return default[0]
+        raise exc("AttributeError", name)
+    if isinstance(name, PartV) and obj is None:
+        if default:
+            return default[0]
+        raise exc("AttributeError", name)
+    if isinstance(name, PartV) and isinstance(obj, SV):
+        o = interp.split_none(obj)
+        if o is None:
+            if default:
+                return default[0]
+            raise exc("AttributeError", name)
+        hook = interp.method_tables.get((o.t.sort().name(), "getattr_sym"))
+        if hook is not None:
+            return hook(interp, o, name, *default)
     if not isinstance(name, str):
         raise OutOfReach("getattr with symbolic name")
     try:
